@@ -149,8 +149,9 @@ theorem betweenVectors_opposite (a b : V3 ℝ) (hbr : Quat.betweenVectorsBranch 
     unfold Quat.betweenVectors; simp only [h1, h2, h3, if_true, if_false, Bool.false_eq_true]
 
 /-! ## Basis2 (2-D) -/
-/-- the 2-D rotation turns `a` onto `b` through the signed angle `atan2(a⊥·b, a·b)` (clockwise when
-`b` is clockwise of `a`) -/
+/-- the 2-D rotation turns `a` onto `b`, is `from_angle` of the signed angle `V2.angle a b = atan2(a⊥·b, a·b)`, and has
+determinant 1 (the orientation reading -- clockwise when `b` is clockwise of `a` -- is not a conjunct: it is what the sign
+convention of `V2.angle` means, see `V2.angle_spec` in `Props/C11.lean`) -/
 theorem basis2_betweenVectors (a b : V2 ℝ) (ha : V2.dot a a = 1) (hb : V2.dot b b = 1) :
     (Basis2.betweenVectors a b).rotateVector a = b ∧
     (Basis2.betweenVectors a b).mat = M2.fromAngle (V2.angle a b) ∧
